@@ -47,6 +47,10 @@ FUNCS = {
                     words=['atFlat'], defined_in='C08.lean', targets=['at_flat']),
     'pos_to_flat': dict(tie=T + 'PosToFlat', theorems=['Mahotas.cscalar_pos_to_flat_eq_model'],
                         words=['posToFlat'], defined_in='C08.lean', targets=['pos_to_flat']),
+    'surf_rect': dict(tie=T + 'Surf', theorems=['Mahotas.cscalar_sum_rect_eq_model', 'Mahotas.cscalar_csum_rect_eq_model',
+                                                'Mahotas.cscalar_haar_x_eq_model', 'Mahotas.cscalar_haar_y_eq_model'],
+                      words=['sumRectAccesses', 'csumRectAccesses', 'haarXAccesses', 'haarYAccesses', 'haarAccesses'],
+                      defined_in='C10Surf.lean', targets=['sum_rect', 'csum_rect', 'haar_x', 'haar_y']),
 }
 THEOREMS = {f['tie']: list(f['theorems']) for f in FUNCS.values()}
 THEOREMS_BY_FUNCTION = {k: {f['tie']: list(f['theorems'])} for k, f in FUNCS.items()}
@@ -54,7 +58,8 @@ THEOREMS_BY_FUNCTION = {k: {f['tie']: list(f['theorems'])} for k, f in FUNCS.ite
 RULE = ('per generated function: exhaustive small scope (fix_offset: 6 modes x lengths 0..9 x coordinates -30..30; '
         'saturating helpers: all pairs of a boundary set of each of the 9 integer dtypes, all 65536 pairs of int8/uint8 in '
         'the thorough tier; margin_of: ranks 0..4) plus seeded random large values; compiled C++ text vs generated Lean')
-ASSUMPTIONS = ['index values below 2^40 in the differential run (products stay below 2^63: the standing no-overflow assumption)']
+ASSUMPTIONS = ['index values below 2^40 (npy_intp functions) / 2^27 (the `int` window arithmetic of SURF) in the differential run: '
+               'sums and products stay inside the C type, the standing no-index-overflow assumption']
 TRUSTED = ['g++ (stand-alone compilation of the extracted function text for the translator differential)',
            'translator/cscalar.py (C-subset front end; validated by this differential run)']
 EXPLANATION = ('CScalarTies (Lean, all arguments) proves generated definition = model definition; this run compares the '
@@ -114,7 +119,9 @@ namespace numpy {
         int ndims() const { return nd; }
     };
     template <typename T> struct aligned_array {
-        T* p; npy_intp n;
+        T* p; npy_intp n; npy_intp dims2[2]; mutable long trace[64]; mutable int ntrace;
+        npy_intp dim(int k) const { return dims2[k]; }
+        T at(int y, int x) const { if (ntrace < 62) { trace[ntrace++] = y; trace[ntrace++] = x; } return T(); }
         typedef T* iterator; typedef const T* const_iterator;
         T* begin() { return p; } const T* begin() const { return p; }
         npy_intp size() const { return n; }
@@ -163,6 +170,20 @@ def _unit(srcs: dict) -> str:
         for k in ('forward_cmp', 'reverse_cmp'):
             if k in have:
                 s.append(f'extern "C" long cs_{k}(long a, long b, long c, long d) {{ return {k}(cs_pt(a, b), cs_pt(c, d)) ? 1 : 0; }}')
+    if 'sum_rect' in have:
+        s.append('namespace { typedef numpy::aligned_array<double> integral_image_type;')
+        for k in ('sum_rect', 'csum_rect', 'haar_x', 'haar_y'):
+            if k in have:
+                s.append(srcs[k]['text'])
+        s.append('}')
+        calls = {'sum_rect': 'sum_rect(A, (int)a[0], (int)a[1], (int)a[2], (int)a[3])',
+                 'csum_rect': 'csum_rect(A, (int)a[0], (int)a[1], (int)a[2], (int)a[3], (int)a[4], (int)a[5])',
+                 'haar_x': 'haar_x(A, (int)a[0], (int)a[1], (int)a[2])', 'haar_y': 'haar_y(A, (int)a[0], (int)a[1], (int)a[2])'}
+        for k, call in calls.items():
+            if k in have:
+                s.append(f'extern "C" int cs_{k}(const long* dims, const long* a, long* out) {{ integral_image_type A; A.p = 0; A.n = 0; '
+                         f'A.dims2[0] = dims[0]; A.dims2[1] = dims[1]; A.ntrace = 0; {call}; for (int i = 0; i < A.ntrace; ++i) out[i] = A.trace[i]; '
+                         'return A.ntrace; }')
     if 'at_flat' in have or 'pos_to_flat' in have:
         s.append('template <typename BaseType> struct cs_array { bool is_carray_; BaseType* data_; int nd; npy_intp dims_[32]; npy_intp strides_[32];')
         s.append('  typedef numpy::position position;')
@@ -271,6 +292,13 @@ def _real_rows(case):
             A = (ctypes.c_long * max(1, n))(*dims)
             S = (ctypes.c_long * max(1, n))(*strides)
             out.append(str(f(ctypes.c_long(p), ctypes.c_long(carray), ctypes.c_long(data), n, A, S)))
+    elif fn in ('sum_rect', 'csum_rect', 'haar_x', 'haar_y'):
+        f = getattr(lib, 'cs_' + fn)
+        f.restype = ctypes.c_int
+        buf = (ctypes.c_long * 64)()
+        for a, dims in case['rows']:
+            n = f((ctypes.c_long * 2)(*dims), (ctypes.c_long * len(a))(*a), buf)
+            out.append(';'.join(f'{buf[i]},{buf[i + 1]}' for i in range(0, n, 2)))
     elif fn == 'pos_to_flat':
         f = lib.cs_pos_to_flat
         f.restype = ctypes.c_long
@@ -290,6 +318,8 @@ def _lines(case):
     pre = f'cs fn={lean}' + (f' dt={dt}' if dt else '')
     if fn in ('margin_of', 'pos_to_flat'):
         return [f'{pre} l0={core.fmt_ints(d)} l1={core.fmt_ints(p)}' for d, p in case['rows']]
+    if fn in ('sum_rect', 'csum_rect', 'haar_x', 'haar_y'):
+        return [f'{pre} a={core.fmt_ints(a)} l0={core.fmt_ints(d)}' for a, d in case['rows']]
     if fn == 'at_flat':
         return [f'{pre} a={core.fmt_ints(a)} l0={core.fmt_ints(d)} l1={core.fmt_ints(st)}' for a, d, st in case['rows']]
     return [f'{pre} a={core.fmt_ints(r)}' for r in case['rows']]
@@ -437,7 +467,23 @@ def _cases_pos_to_flat(rng, tier):
     return [dict(fn='pos_to_flat', rows=ch, src='random') for ch in _chunks(rows, 1000)]
 
 
+def _cases_surf(rng, tier):
+    n = dict(quick=800, thorough=15000, search=5000)[tier]
+    out = []
+    for fn, k in (('sum_rect', 4), ('csum_rect', 6), ('haar_x', 3), ('haar_y', 3)):
+        rows = []
+        for _ in range(n):
+            dims = [rng.choice([0, 1, 2, 3, rng.randint(1, 12), rng.randint(1, 300)]) for _ in range(2)]
+            m = max(dims) + 3
+            a = [rng.choice([0, 1, -1, rng.randint(-m, m), rng.randint(-3 * m, 3 * m), rng.choice([-1, 1]) * rng.choice([10 ** 6, 2 ** 27])])
+                 for _ in range(k)]
+            rows.append([a, dims])
+        out.append(dict(fn=fn, rows=rows, src='random'))
+    return out
+
+
 GENERATORS = {
+    'surf_rect': _cases_surf,
     'convex': _cases_convex,
     'at_flat': _cases_at_flat,
     'pos_to_flat': _cases_pos_to_flat,
